@@ -480,6 +480,9 @@ def gen_program(rng, cls, force=None):
                 seq_kinds.append(k0 if (cls == "rebind" or rng.random() < 0.3) else rng.choice(HOISTED))
             if force is not None:
                 seq_kinds = [force["kinds"][j % len(force["kinds"])] for j in range(n_pre + n_loop)]
+            if "Servo" in seq_kinds and "Pot" in seq_kinds:
+                # `read` is a method of both classes: for a name that was ever a Servo the parser emits the Servo getter
+                seq_kinds = [("Ultra" if k == "Pot" else k) for k in seq_kinds]
             prev = None
             pre_seq, last_kind = [], None
             for j, k in enumerate(seq_kinds):
@@ -1169,7 +1172,7 @@ def check_batch(ctx, progs, stats, known_mode=False):
                              p["src"], mo, [ok_cbu, ok_one, hk, hk_setup])
         g = rec["guard"] or {"transl_ok": True, "vars_persist": True, "well_placed": True, "one_main_last": True, "vars_ok": True}
         stats["monitor_runs"] += 1
-        if g["well_placed"]:
+        if g["well_placed"] or known_mode:
             stats["in_guard_placement"] += 1
             if not ok_cbu:
                 rec["fails"].append("cbu")
@@ -1328,9 +1331,9 @@ def run(ctx: C.Ctx):
             for shape in ("pre_pre_loop", "pre_loop_loop"):
                 for pins in ("same", "diff"):
                     forced.append({"kinds": [k], "shape": shape, "pins": pins, "use": False})
-        pairs = [(a, c) for a in HOISTED for c in HOISTED if a != c]
+        pairs = [(a, c) for a in HOISTED for c in HOISTED if a != c and {a, c} != {"Servo", "Pot"}]
     else:
-        pairs = rng.sample([(a, c) for a in HOISTED for c in HOISTED if a != c], 10)
+        pairs = rng.sample([(a, c) for a in HOISTED for c in HOISTED if a != c and {a, c} != {"Servo", "Pot"}], 10)
     for a, c in pairs:
         forced.append({"kinds": [a, c], "shape": rng.choice(["pre_loop", "pre_pre", "loop_loop"]), "pins": "rand", "use": True})
     progs += [gen_program(rng, "rebind", force=f) for f in forced]
@@ -1377,12 +1380,21 @@ def run(ctx: C.Ctx):
                 if [n[1] for n in in_loop] != body_marks:
                     ctx.known(f"{f['id']}: {f['what']}")
             continue
+        devs = {"mon": ("Serial", [], "setup")}
+        devs.update({k: (v[0], list(v[1]), v[2]) for k, v in w.get("devs", {}).items()})
         prog = {"src": w["src"], "items": w["items"], "marks": marks,
-                "inputs": {}, "lcd_user_row": {}, "lcd_anim_rows": {}, "lcd_order": [], "devs": {"mon": ("Serial", [], "setup")},
+                "inputs": {int(k): list(v) for k, v in w.get("inputs", {}).items()},
+                "lcd_user_row": {}, "lcd_anim_rows": {}, "lcd_order": [], "devs": devs,
                 "cls": "witness", "sentinels": w.get("sentinels", []), "starts": []}
         probe_stats = {k: (0 if not isinstance(v, dict) else {}) for k, v in stats.items()}
         rec = check_batch(ctx, [prog], probe_stats, known_mode=True)[0]
-        if rec.get("py_diff") is not None:
+        if w.get("monitor") == "cbu":
+            # configured-before-use witness: the monitor fails on the real firmware trace (and the model says: outside well_placed)
+            if "cbu" in rec.get("fails", []):
+                ctx.known(f"{f['id']}: {f['what']}")
+                if rec.get("guard") and rec["guard"]["well_placed"]:
+                    ctx.disagree("known-finding witness is inside the model's guard", w["src"], rec["guard"], rec["fails"])
+        elif rec.get("py_diff") is not None:
             ctx.known(f"{f['id']}: {f['what']}")
 
     n_inside = stats["in_guard_python"]
@@ -1402,8 +1414,11 @@ def run(ctx: C.Ctx):
                          "device_kinds_setup": sorted({d[0] for p in progs for d in p["devs"].values() if d[2] == "setup"}),
                          "device_kinds_loop": sorted({d[0] for p in progs for d in p["devs"].values() if d[2] == "loop"})},
         "exhaustive": False,
-        "guard": "oracle vs CPython: model says transl_ok (no rejected break), one `while True:` and it is the last top-level item (or none), vars_ok (no block below setup depth 0 / inside the loop introduces a name; a name first assigned inside `while True:` is assigned by a top-level statement of the body before anything reads it in that pass); configure-before-use monitors: model says well_placed (unique device names, devices declared by top-level statements, before use, loop-top declarations only of the hoisted kinds, one mode per pin). Outside: known findings F-C05-looplocal-reinit (vars_ok), F-C05-postloop-in-setup and F-C05-second-main-loop-appended (one_main_last), F-C05-main-header-comment (lexical). The break guard, housekeeping (hk_ok), no-pass-cut-short and motor safe-stop oracles have no guard.",
-        "unmodelled": ["devices declared inside nested blocks (outside the property's quantifier)", "re-declaration of a device name",
+        "guard": "oracle vs CPython: model says transl_ok (no rejected break), one `while True:` and it is the last top-level item (or none), vars_ok (no block below setup depth 0 / inside the loop introduces a name; a name first assigned inside `while True:` is assigned by a top-level statement of the body before anything reads it in that pass); configure-before-use monitors: model says well_placed (devices declared by top-level statements, loop-top declarations only of the hoisted kinds, Buzzer/LCD/SerialMonitor names bound once, a device name bound several times only with one main loop as last item, one mode per pin, and the static resolution check: with emit()'s bindings and dedup keys at each point of the text every statement / poll / tick / handler only touches pins configured by the hoisted block or an earlier in-place configuration). Outside: F-C05-button-rebound-unconfigured, F-C05-ultrasonic-rebound-early-measure. Outside: known findings F-C05-looplocal-reinit (vars_ok), F-C05-postloop-in-setup and F-C05-second-main-loop-appended (one_main_last), F-C05-main-header-comment (lexical). The break guard, housekeeping (hk_ok), no-pass-cut-short and motor safe-stop oracles have no guard.",
+        "unmodelled": ["devices declared inside nested blocks (outside the property's quantifier)",
+                       "re-binding of a Buzzer / LCD / SerialMonitor name (not of the hoisted set; names kept unique by the guard)",
+                       "which COMMAND the parser emits for a method shared by two classes when a name was bound to both (`on`/`off` of a name that was ever an RGBLed are parsed as RGBLed commands and drive the old RGB pins - configured, so not a C05 matter; a behaviour-preservation defect): likewise `read` of a name that was ever a Servo is the Servo getter; generated re-binding scripts use methods only one class has (toggle, set_color, write, set_speed, measure_distance; `read` only when the name is never a Servo)",
+                       "a re-bound Servo name keeps driving the pin of its FIRST declaration (one Servo object per name, attached once) and a re-bound Ultrasonic name always measures on the pins of its LAST declaration: modelled as is (the commanded pins are configured, configure-before-use holds on the trace); that the commands reach the wrong pin is a behaviour-preservation defect outside this property's statement",
                        "lexical recognition of the main-loop header (`while True:  # comment` is not recognised: finding F-C05-main-header-comment, replayed on the real parser only; generated headers are exactly `while True:`)",
                        "the value a DCMotor is stopped with / a Servo is first written with (the model has 'a write'; the harness checks on the real trace that the first write on every motor pin is a 0-write inside setup())",
                        "names promoted out of a block inside setup() below depth 0 are re-initialised at the head of the block on every execution of it (modelled; outside vars_ok; a C01 matter, not a clause of C05)",
